@@ -129,6 +129,13 @@ def check_contraction(ch, a, b, sa, sb, axes_a, axes_b, modes, forms=True):
             require(len(fa) + len(fb) == 0 and not preserve, sig + ":type",
                     lambda: f"{type(r)}")
             scalar_equal(r, wdata, sig + ":scalar", what=mode)
+    if a.blocks and forms:
+        # documented shorthand: a rank-0 second operand is a scalar factor
+        r0 = must(sr.tensordot, a, 3, 0, what="tensordot(a, scalar)")
+        dense_equal(D.dense_of(r0, ref=[dict(ix.chargemap)
+                                        for ix in a.indices]),
+                    3 * D.dense_of(a), "tensordot:scalar-operand",
+                    what="tensordot(a, 3, 0)")
     return want
 
 
